@@ -6,6 +6,8 @@ package main
 import (
 	"go/token"
 	"go/types"
+
+	"golang.org/x/tools/go/ssa"
 )
 
 // hexVal is the value of an ASCII hex digit (0 for other octets); isHex tells whether it is one.
@@ -263,4 +265,76 @@ func (x *Exec) unspecBytes(name string, maxLen *Term) SliceV {
 	x.inputs = x.inputs[:n]
 	x.assume(BvUle(sv.Len, maxLen))
 	return sv
+}
+
+// stringUF models a string-valued specification function that is characterised by assumed facts
+// instead of being defined.  Only strspec.FormatDec(n, w) with a constant width exists so far:
+// w octets digit(n,w,k), and for 0 <= n < 10^w they are decimal digits whose value is n.
+func (x *Exec) stringUF(fn *ssa.Function, args []Value) Value {
+	if fn.Name() != "FormatDec" {
+		unsup("string-uf function %s has no characterisation", fn)
+	}
+	return x.formatDec(term(args[0]), term(args[1]))
+}
+
+func (x *Exec) formatDec(n, w *Term) Value {
+	if !w.IsConst() || !w.Val.IsInt64() || w.Val.Int64() < 1 || w.Val.Int64() > 18 {
+		unsup("FormatDec with a width that is not a constant in 1..18")
+	}
+	wi := int(w.Val.Int64())
+	fd := declUF("f!strspec.FormatDec!digit", []Sort{BV(64), BV(64), BV(64)}, BV(8), nil)
+	if fd.Inst == nil {
+		fd.Inst = func(a []*Term) *Term {
+			n, w := a[0], a[1]
+			if !w.IsConst() {
+				return True()
+			}
+			wi := int(w.Val.Int64())
+			pow := int64(1)
+			for i := 0; i < wi; i++ {
+				pow *= 10
+			}
+			sum := bv64(0)
+			digits := True()
+			for k := 0; k < wi; k++ {
+				d := App("f!strspec.FormatDec!digit", BV(8), n, w, bv64(int64(k)))
+				digits = And(digits, isDigit(d))
+				sum = BvAdd(BvMul(sum, bv64(10)), Zext(BvSub(d, BVU('0', 8)), 64))
+			}
+			return Imp(And(BvSle(bv64(0), n), BvSlt(n, bv64(pow))), And(digits, Eq(sum, n)))
+		}
+	}
+	e := make([]Value, wi)
+	for k := 0; k < wi; k++ {
+		e[k] = Scalar{App("f!strspec.FormatDec!digit", BV(8), n, w, bv64(int64(k)))}
+	}
+	o := x.newObject(types.Typ[types.Uint8], "formatdec")
+	x.st.heap.m[o] = ArrayV{e}
+	// (for n >= 10^w the real result is longer; callers are held to n < 10^w by an obligation)
+	pow := int64(1)
+	for i := 0; i < wi; i++ {
+		pow *= 10
+	}
+	if x.ghost == 0 {
+		x.oblige("S", "formatdec-width", And(BvSle(bv64(0), n), BvSlt(n, bv64(pow))), token.NoPos)
+	}
+	return SliceV{Obj: o, Off: bv64(0), Len: bv64(int64(wi)), Cap: bv64(int64(wi)), Nil: False(), Str: true}
+}
+
+func init() {
+	// fmt.Sprintf with the one format the code uses for identifiers: "%0*d" (width, value).
+	extModels["fmt.Sprintf"] = func(x *Exec, fr *Frame, args []Value, pos token.Pos) Value {
+		f := x.constStr(args[0])
+		va := asSlice(args[1])
+		n, ok := concreteLen(va)
+		if f != "%0*d" || !ok || n != 2 {
+			return UnknownV{types.Typ[types.String], "fmt.Sprintf with a format that is not modelled: " + f}
+		}
+		w, ok1 := x.elemAt(va, bv64(0)).(IfaceV)
+		v, ok2 := x.elemAt(va, bv64(1)).(IfaceV)
+		if !ok1 || !ok2 || w.V == nil || v.V == nil {
+			unsup("fmt.Sprintf arguments")
+		}
+		return x.formatDec(Resize(term(v.V), 64, true), Resize(term(w.V), 64, true))
+	}
 }
